@@ -61,7 +61,7 @@ def draw(desc: dict, mode: str, modes: list[str], n: int, seed: int) -> dict:
         out["op"] = op_decl
         operation = schemathesis.openapi.from_dict(raw)[path][method]
         gm = {"positive": GenerationMode.POSITIVE, "negative": GenerationMode.NEGATIVE}
-        config = GenerationConfig(modes=[gm[m] for m in modes], allow_x00=bool(cfg["allow_x00"]), codec=None if cfg["codec"] == "none" else cfg["codec"],
+        config = GenerationConfig(modes=[gm[m] for m in modes], allow_x00=bool(cfg["allow_x00"]), codec={"none": None, "latin-1": "iso8859-1"}.get(cfg["codec"], cfg["codec"]),
                                   with_security_parameters=bool(cfg.get("security")))
         kwargs: dict = {}
         if cfg.get("explicit"):     # the caller fixes q1 (a conforming value); the rest of the location must be generated around it
@@ -236,7 +236,8 @@ def run(ctx: Ctx) -> Outcome:
     n = 20 if ctx.quick else 50
 
     def jobs_for(d: dict) -> list[dict]:
-        return [{"desc": d, "mode": "positive", "modes": ["positive"], "n": n, "seed": ctx.seed}]
+        # the configuration group crosses two string restrictions in five locations: rare characters need more draws
+        return [{"desc": d, "mode": "positive", "modes": ["positive"], "n": 2 * n if d["group"] == "config" else n, "seed": ctx.seed}]
 
     return run_property(ctx, "C01", "c01", jobs_for, str(n), signature,
                         "every operation descriptor reachable in GenData.tla family c01 (TLC-enumerated; exhaustive inside a location group, pairwise "
